@@ -59,6 +59,12 @@ Theorem C15_cut_only_contentfree_is_false : ~ cut_only_contentfree.
 Proof. exact (contentfree_case_refutes 0 witness_contentfree C15_cut_only_contentfree_refuted). Qed.
 Print Assumptions C15_cut_only_contentfree_is_false.
 
+(* a statement that spans two lines is attributed to its first line: the blank
+   after it on its last line is cut although that line holds a show *)
+Theorem C15_refuted_multiline_statement :
+  cut_contentfree_case 0 [32;32;123;37;32;105;102;10;32;116;114;117;101;32;37;125;32;123;37;32;101;110;100;32;37;125;123;123;32;34;115;34;32;125;125] = Some false.
+Proof. vm_compute. reflexivity. Qed.
+
 (* "{% raw %}\na\n{% end raw %}": the new line after the raw statement belongs
    to the raw text and is cut like the end of any line holding a statement *)
 Definition witness_raw : bytes :=
